@@ -211,7 +211,7 @@ func (e *vsEnv) snapshot() string {
 	e.logger.Parse(func(name, renamed, hash string, size int64, t time.Time) bool {
 		recs = append(recs, fmt.Sprintf("%s %s %s %d", gen.Hex(name), gen.Hex(renamed), gen.Hex(hash), size))
 		return false
-	}, time.Now().Add(-48*time.Hour), time.Now().Add(time.Hour))
+	}, time.Now().Add(-240*time.Hour), time.Now().Add(time.Hour))
 	return fmt.Sprintf("%s %s %d %s %d %s", e.listing(true), e.companions(), len(fin), strings.Join(fin, " "), len(recs), strings.Join(recs, " "))
 }
 
@@ -694,6 +694,39 @@ func verifStageMatrix2(r *gen.Rand) []vsOp {
 		recv(f, 0, len(f.content))
 	}
 	names := [][2]string{{"site/data.bin", "site/next.bin"}, {"a", "b"}, {"g.1", "g.2"}, {"d/e/x", "d/y"}}[r.Intn(4)]
+	if r.Chance(1, 7) {
+		// (g) a name delivered days ago is used again; the new version is live in the stage - held for
+		// a predecessor that is not there yet, or failed validation and awaiting its re-send - when a
+		// poll with an old send time makes the receiver read its log back past the OLD record of that
+		// name; then the successor of the new version arrives
+		Pold := mk(names[0], "", 3+r.Intn(6))
+		whole(Pold)
+		ops = append(ops, vsOp{kind: "ST"}, vsOp{kind: "AA", num: 259200}, vsOp{kind: "RS"})
+		Q := mk("q/first", "", 2+r.Intn(4))
+		P := mk(names[0], Q.name, 3+r.Intn(6))
+		S := mk(names[1], P.name, 2+r.Intn(6))
+		failed := r.Chance(1, 2)
+		if failed {
+			P.prev = ""
+			bad := append([]byte{}, P.content...)
+			bad[0] ^= 0x5a
+			prep(P)
+			ops = append(ops, vsOp{kind: "RC", part: part(P, 0, len(P.content)), data: bad}, vsOp{kind: "ST"})
+		} else {
+			whole(P)
+			ops = append(ops, vsOp{kind: "ST"})
+		}
+		ops = append(ops, vsOp{kind: "SQ", name: P.name, num: -4 * 86400})
+		whole(S)
+		ops = append(ops, vsOp{kind: "ST"}, vsOp{kind: "SQ", name: S.name, num: -3600})
+		if failed {
+			whole(P)
+		} else {
+			whole(Q)
+		}
+		ops = append(ops, vsOp{kind: "ST"}, vsOp{kind: "SQ", name: S.name, num: -3600}, vsOp{kind: "SQ", name: P.name, num: -3600})
+		return ops
+	}
 	if r.Chance(1, 6) {
 		// (f) a validated file is held for its predecessor; the first part of a NEW version of the same
 		// name arrives (the companion now describes the new version, the held body is the old one);
